@@ -896,15 +896,49 @@ func c16hBody(c c16hCase, info *c16hInfo) *vlib.Failure {
 	}
 	// byte level: a suffix of the pre-link log of at least min(volume, capacity)
 	// bytes, followed by exactly the post-link log
-	if !bytes.HasSuffix(got, sref) {
-		return vlib.Failf("the output logged after the link does not arrive unchanged at the end of what %s received: %s", where, c16DescribeDiff(c16Tail(got, len(sref)), sref))
-	}
-	d := len(got) - len(sref)
-	if d < need {
-		return vlib.Failf("%s received only %d of the %d bytes logged before the link; min(volume, capacity %d) = %d must survive: %s", where, d, len(lref), c16RingCap, need, c16Clip(got[:d]))
-	}
-	if d > len(lref) || !bytes.Equal(got[:d], lref[len(lref)-d:]) {
-		return vlib.Failf("the %d early bytes %s received are not the last %d bytes logged before the link: %s", d, where, d, c16DescribeDiff(got[:d], c16Tail(lref, d)))
+	exact := func() *vlib.Failure {
+		if !bytes.HasSuffix(got, sref) {
+			return vlib.Failf("the output logged after the link does not arrive unchanged at the end of what %s received: %s", where, c16DescribeDiff(c16Tail(got, len(sref)), sref))
+		}
+		d := len(got) - len(sref)
+		if d < need {
+			return vlib.Failf("%s received only %d of the %d bytes logged before the link; min(volume, capacity %d) = %d must survive: %s", where, d, len(lref), c16RingCap, need, c16Clip(got[:d]))
+		}
+		if d > len(lref) || !bytes.Equal(got[:d], lref[len(lref)-d:]) {
+			return vlib.Failf("the %d early bytes %s received are not the last %d bytes logged before the link: %s", d, where, d, c16DescribeDiff(got[:d], c16Tail(lref, d)))
+		}
+		return nil
+	}()
+	if exact != nil {
+		// The lossless execution and the real one differ in nothing but where the log goes first. A
+		// line the bring-up code writes about that very thing (so many bytes replayed, so many
+		// lost) may differ between the two in its numbers. Before giving up, the comparison is
+		// repeated with every run of decimal digits folded into one '#', and with some slack in
+		// the byte count (the fold shortens both sides); anything else that differs still counts.
+		fold := func(b []byte) []byte {
+			out := make([]byte, 0, len(b))
+			for i := 0; i < len(b); i++ {
+				if b[i] >= '0' && b[i] <= '9' {
+					if len(out) == 0 || out[len(out)-1] != '#' {
+						out = append(out, '#')
+					}
+					continue
+				}
+				out = append(out, b[i])
+			}
+			return out
+		}
+		g, l, sr := fold(got), fold(lref), fold(sref)
+		const slack = 96
+		d := len(g) - len(sr)
+		needFolded := len(l)
+		if c16RingCap-slack < needFolded {
+			needFolded = c16RingCap - slack
+		}
+		if !bytes.HasSuffix(g, sr) || d+slack < needFolded || d > len(l) || !bytes.Equal(g[:d], l[len(l)-d:]) {
+			return exact
+		}
+		label(true, "log-lines-with-numbers-that-depend-on-the-execution(compared with digits folded)")
 	}
 
 	// ---- the real VT shows the stream on the console ------------------------------
